@@ -481,7 +481,7 @@ theorem classify_ok {s : State} {op : Op} (h : classify s op = .ok) :
     exact ⟨by simpa using hall, h⟩
   · cases h
 
-theorem step_inv {s : State} {op : Op} (h : Inv s) (hc : classify s op = .ok) : Inv (step s op).state := by
+theorem step_inv {s : State} {op : Op} (h : Inv s) (hc : classify s op = .ok) : Inv (stepCore s op).state := by
   obtain ⟨hids, hargs⟩ := classify_ok hc
   cases op with
   | addArray l shape val =>
@@ -500,7 +500,7 @@ theorem step_inv {s : State} {op : Op} (h : Inv s) (hc : classify s op = .ok) : 
   | remove c => exact inv_remove h c
   | reorder cs => exact inv_reorder h cs
   | updateId old new =>
-    simp only [step]
+    simp only [stepCore]
     split
     · exact h
     · rename_i hnew
@@ -521,13 +521,13 @@ theorem step_inv {s : State} {op : Op} (h : Inv s) (hc : classify s op = .ok) : 
     simp [hs, this] at hargs
   | setCoords v => exact inv_setCoords h v
   | rename c l =>
-    simp only [step]
+    simp only [stepCore]
     split
     · exact h
     · exact inv_frame h rfl rfl rfl rfl rfl rfl rfl (Nat.le_refl _)
   | setLabel l => exact inv_setLabel h l
   | attach =>
-    simp only [step]
+    simp only [stepCore]
     split
     · exact h
     · simp only [ok]
@@ -536,7 +536,7 @@ theorem step_inv {s : State} {op : Op} (h : Inv s) (hc : classify s op = .ok) : 
   | detach => exact inv_frame h rfl rfl rfl rfl rfl rfl rfl (Nat.le_refl _)
   | register => exact inv_frame h rfl rfl rfl rfl rfl rfl rfl (Nat.le_refl _)
   | setLinked cs =>
-    simp only [step]
+    simp only [stepCore]
     split
     · exact h
     · simp only [ok]
